@@ -315,6 +315,11 @@ class HistGen:
         actor = actor or self.actor()
         if hops is None:
             ps = self.paths()
+            if rng.random() < 0.85:
+                # prefer routes whose pairs all hold both reserves
+                live = set(p.addr for p in w.pairs if min(p.reserves(led)) > 0)
+                good = [h for h in ps if all(w.pair_for(o, a).addr in live for o, a in h)]
+                ps = good or ps
             # prefer longer routes a bit
             hops = rng.choice(ps)
             if len(hops) == 1 and rng.random() < 0.5:
@@ -322,9 +327,11 @@ class HistGen:
         first = w.pair_for(*hops[0])
         x = first.reserves(led)[first.idx(hops[0][0])] if first else 0
         if amount is None:
-            amount = rel_amount(rng, x, w.scale_bits, cap=max(1, led.get(actor, hops[0][0][1])))
-            if rng.random() < 0.6:
-                amount = max(1, min(amount, x // rng.choice([1, 4, 64, 1024]) + 1))
+            cap = max(1, led.get(actor, hops[0][0][1]))
+            if rng.random() < 0.7 and x > 0:
+                amount = max(1, min(cap, int(x * 2 ** rng.uniform(-8, 1))))
+            else:
+                amount = rel_amount(rng, x, w.scale_bits, cap=cap)
         quotes = [w.q_route_sim(hops, amount)]
         return {"hops": hops, "amount": amount, "actor": actor}, quotes
 
